@@ -339,6 +339,10 @@ def c18_programs(rng, n):
     out.append(prog([("u1", [("tablesize",), ("remote_exec", "c", 1), ("setcallback", "c", True), ("drop", "c"), ("open_gate", "go"),
                              ("remote_exec", "e", 2), ("receive_all", "e"), ("drop", "e"), ("tablesize_settled",)])],
                     {1: [("send", "channel", 201), ("wait_gate", "go"), ("raise",)], 2: [("send", "channel", 221)]}))
+    # remote_status() from one thread while others create channels: its temporary channel takes an id like any other
+    out.append(prog([("u1", [("status",), ("status",)]), ("u2", [("remote_exec", "c", 1), ("receive_all", "c"), ("newchannel", "n1")]),
+                     ("u3", [("newchannel", "n2"), ("remote_exec", "d", 2), ("receive_all", "d")])],
+                    {1: [("send", "channel", 201), ("send", "channel", 202)], 2: [("send", "channel", 211)]}))
     # setcallback on a channel with queued items while the channel gets closed during the drain (by the callback itself / by another thread)
     out.append(prog([("u1", [("tablesize",), ("remote_exec", "c", 1), ("wait_gate", "sent"), ("setcallback", "c", False, 202, "closeself"),
                              ("drop", "c"), ("open_gate", "fin"), ("remote_exec", "e", 2), ("receive_all", "e"), ("drop", "e"), ("tablesize_settled",)])],
